@@ -697,7 +697,8 @@ static json gen_frames() {
       jb = json::array({ax, skew(ax / 2), by, skew(ax / 2), skew(by / 2), cz});
     } else if (how < 6 && !PB.open) {
       // same shape, scaled
-      double sc = pick<double>({0.5, 0.75, 1.25, 2.0});
+      // (barostat-like drifts of 1e-7..2e-6 per frame included)
+      double sc = pick<double>({0.5, 0.75, 1.25, 2.0, 1.000002, 0.999998, 1.0000001, 0.9999995});
       jb = prevbox;
       for (auto &x : jb) x = double(x) * sc;
     } else {
@@ -890,6 +891,11 @@ static json gen_reject() {
   rho = R[rk];
   if (rbool(15)) rho = rfrac(1, 64, 16);  // anything up to 4 half-heights: the nearest image is then another one
   int far = ri(1, na - 1);                // index into par of the far parent (never the first)
+  // "all weight vectors with non-zero sum (including zero weights)": the far parent may be one that does not contribute
+  if (rbool(30)) {
+    w[size_t(far)] = 0;
+    types[0]["beads"][0]["w"] = w;
+  }
   json pos = json::array(), vel = json::array(), f = json::array(), msh = json::array();
   std::vector<Eigen::Vector3d> P(static_cast<size_t>(na));
   for (int k = 0; k < na; ++k) {
